@@ -373,7 +373,17 @@ func cmdCheck(args []string) {
 		var names []string
 		for _, o := range mine {
 			if o.Status == "discharged" {
-				names = append(names, o.Name)
+				// margin: an obligation that needed more than half of the
+				// per-goal time limit is attempted but never claimed
+				slow := false
+				for _, g := range o.goals {
+					if g.ms > int64(perCheck/2) {
+						slow = true
+					}
+				}
+				if !slow {
+					names = append(names, o.Name)
+				}
 			}
 		}
 		sort.Strings(names)
